@@ -314,6 +314,7 @@ class CountingCuckooFilter(CuckooFilter):
     def _expand_logic(self, extra_fingerprint: "CountingCuckooBin") -> None:
         """the logic to acutally expand the cuckoo filter"""
         # get all the fingerprints
+        previous = (self._cuckoo_capacity, self._buckets, self._inserted_elements, self.__unique_elements)
         fingerprints = self._setup_expand(extra_fingerprint)
         self.__unique_elements = 0  # this needs to be reset!
 
@@ -321,6 +322,8 @@ class CountingCuckooFilter(CuckooFilter):
             idx_1, idx_2 = self._indicies_from_fingerprint(elm.finger)
             res = self._insert_fingerprint_alt(elm.finger, idx_1, idx_2, elm.count)
             if res is not None:  # again, this *shouldn't* happen
+                # go back to the table as it was; a half rebuilt one would lose elements
+                self._cuckoo_capacity, self._buckets, self._inserted_elements, self.__unique_elements = previous
                 msg = "The CountingCuckooFilter failed to expand"
                 raise CuckooFilterFullError(msg)
 
